@@ -650,6 +650,84 @@ func dueInstantCancels(interval bool, period, cancellers, ticks int, r *rep.Repo
 	return
 }
 
+// concurrentRefreshes: several goroutines refresh one timeout at the same moment (the timer has
+// fired, is pending, or was cancelled).  Whatever their order, the callback is due one period
+// after the refreshes, runs exactly once, and after the final cancel no goroutine of the timer
+// remains.
+func concurrentRefreshes(state string, period, refreshers int, r *rep.Report) (key, msg string) {
+	var leftovers []string
+	rig.Bubble(r.T(), func() {
+		var mu sync.Mutex
+		var at []time.Duration
+		t0 := time.Now()
+		fn := func() { mu.Lock(); at = append(at, time.Since(t0)); mu.Unlock() }
+		P := time.Duration(period) * time.Millisecond
+		tm := utils.SetTimeout(fn, P)
+		switch state {
+		case "fired":
+			time.Sleep(P + P/2)
+		case "pending":
+			time.Sleep(P / 2)
+		case "cancelled":
+			time.Sleep(P / 2)
+			tm.Stop()
+		}
+		rig.Wait()
+		mu.Lock()
+		before := len(at)
+		mu.Unlock()
+		start := time.Since(t0)
+		var wg sync.WaitGroup
+		for k := 0; k < refreshers; k++ {
+			wg.Add(1)
+			go func() { defer wg.Done(); tm.Refresh() }()
+		}
+		wg.Wait()
+		rig.Wait()
+		time.Sleep(P - time.Nanosecond)
+		rig.Wait()
+		mu.Lock()
+		early := len(at) - before
+		mu.Unlock()
+		if early != 0 {
+			key, msg = "timer-refresh-fired-early", fmt.Sprintf("timeout (%s) refreshed by %d goroutines at %v: %d callback(s) before one full period had passed", state, refreshers, start, early)
+			return
+		}
+		time.Sleep(time.Nanosecond + P/4)
+		rig.Wait()
+		mu.Lock()
+		ran := len(at) - before
+		mu.Unlock()
+		if ran != 1 {
+			key, msg = "timer-refresh-callback-count", fmt.Sprintf("timeout (%s) refreshed by %d goroutines at %v: %d callbacks one period later, expected exactly one", state, refreshers, start, ran)
+			return
+		}
+		done := make(chan struct{})
+		go func() { tm.Stop(); close(done) }()
+		rig.Wait()
+		select {
+		case <-done:
+		default:
+			key, msg = "timer-cancel-hangs", fmt.Sprintf("cancel after %d concurrent refreshes of a %s timeout did not return", refreshers, state)
+			return
+		}
+		time.Sleep(4 * P)
+		rig.Wait()
+		mu.Lock()
+		late := len(at) - before - ran
+		mu.Unlock()
+		if late != 0 {
+			key, msg = "timeout-callback-after-cancel", fmt.Sprintf("%d callback(s) after the cancel that followed %d concurrent refreshes", late, refreshers)
+			return
+		}
+		leftovers = rig.Leftovers()
+	})
+	if key == "" && len(leftovers) > 0 {
+		return "timer-goroutine-left-behind", fmt.Sprintf("%d goroutine(s) left after %d concurrent refreshes of a %s timeout, one firing and a cancel: %s", len(leftovers), refreshers, state, rig.TopFrames(leftovers[0], 3))
+	}
+	return
+}
+
 func TestC19(t *testing.T) {
 	r := rep.New(t, "C19")
 	defer r.Flush()
@@ -721,6 +799,20 @@ func TestC19(t *testing.T) {
 		r.Obs("concurrent_cancels_at_due_instant", 1)
 		if key != "" {
 			r.Violation("due-instant:"+key, msg, map[string]any{"lane": "concurrent cancels at exactly the due instant", "interval": iv, "period_ms": period, "cancellers": nc, "ticks": ticks, "iteration": i})
+			break
+		}
+	}
+	nr := r.N(24000, 3000000)
+	for i := 0; i < nr; i++ {
+		state := []string{"fired", "pending", "cancelled"}[i%3]
+		period, k := 2+(i/3)%3, 2+(i/9)%3
+		key, msg := concurrentRefreshes(state, period, k, r)
+		if i%1000 < 27 {
+			r.Case(fmt.Sprintf("concurrent-refreshes/%s/%d/%d", state, period, k), true)
+		}
+		r.Obs("concurrent_refresh_rounds", 1)
+		if key != "" {
+			r.Violation("concurrent-refresh:"+key, msg, map[string]any{"lane": "several goroutines refreshing one timeout at the same moment", "state": state, "period_ms": period, "refreshers": k, "iteration": i})
 			break
 		}
 	}
